@@ -106,6 +106,9 @@ pub fn scenario(g: &mut G, ctx: &RunCtx) -> RunReport {
         plan.repaint_payload(|i, _| PALETTE[(i * 7 + i / 9 + n) % PALETTE.len()]);
         plan.repaint_payload(|i, b| if i == 0 { [0xEFu8, 0xFE, 0xFF][n % 3] } else { b });
         plan.text_charset = Some([encoding_rs::WINDOWS_1251, encoding_rs::KOI8_R, encoding_rs::WINDOWS_1252, encoding_rs::ISO_8859_2][(n / 2) % 4]);
+        // windows-1252 is also what the library falls back to when nothing declares or configures a charset:
+        // those plans go through plain `text_reader()`
+        plan.text_charset_implicit = plan.text_charset == Some(encoding_rs::WINDOWS_1252);
         g.probe("text-reader-over-a-single-byte-charset");
     }
     // where the server goes silent (connection stays open)
